@@ -104,7 +104,8 @@ pub trait BinaryInput {
         let compressed_len = self.read_var_u32()? as usize;
         let compressed = self.read_bytes(compressed_len)?;
         let mut deflater = DeflateDecoder::new(compressed);
-        let mut result = Vec::with_capacity(uncompressed_len);
+        // the announced length is untrusted input: reserve at most 64 KiB up front
+        let mut result = Vec::with_capacity(uncompressed_len.min(64 * 1024));
         deflater
             .read_to_end(&mut result)
             .map_err(|err| Error::DecompressionFailure(format!("{err}")))?;
